@@ -2,6 +2,8 @@
 pub mod bytes;
 pub mod conv;
 pub mod engine;
+pub mod fixtree;
 pub mod model;
 pub mod gen;
 pub mod props;
+pub mod rec;
